@@ -7,10 +7,9 @@ pub mod c02;
 pub mod c04;
 pub mod c05;
 pub mod c06;
-#[cfg(feature = "vo_bit")]
 pub mod c07;
-#[cfg(feature = "vo_bit")]
 pub mod c08;
+pub mod c09;
 pub mod c11;
 pub mod c13;
 pub mod c17;
@@ -24,6 +23,7 @@ pub mod c24;
 pub mod c25;
 pub mod c26;
 pub mod c27;
+pub mod c28;
 pub mod c29;
 pub mod c30;
 pub mod c31;
@@ -37,6 +37,10 @@ pub mod c38;
 pub mod c39;
 pub mod c40;
 pub mod metaconc;
+
+
+#[cfg(feature = "vo_bit")]
+#[cfg(feature = "vo_bit")]
 
 
 
@@ -78,6 +82,8 @@ pub fn run(id: &str, run: &mut Run) {
         "C06" => c06::run(run),
         "C34" => c34::run(run),
         "C31" => c31::run(run),
+        "C09" => c09::run(run),
+        "C28" => c28::run(run),
         _ => machinery_failure(&format!("no check for property {}", id)),
     }
 }
@@ -119,6 +125,8 @@ pub fn replay(id: &str, case: &Value, run: &mut Run) {
         "C06" => c06::replay(case, run),
         "C34" => c34::replay(case, run),
         "C31" => c31::replay(case, run),
+        "C09" => c09::replay(case, run),
+        "C28" => c28::replay(case, run),
         _ => machinery_failure(&format!("no replay for property {}", id)),
     }
 }
@@ -142,6 +150,8 @@ pub fn child(id: &str, args: &[String]) {
         "C06" => c06::child(args),
         "C34" => c34::child(args),
         "C31" => c31::child(args),
+        "C09" => c09::child(args),
+        "C28" => c28::child(args),
         _ => machinery_failure(&format!("no child mode for property {}", id)),
     }
 }
